@@ -29,7 +29,9 @@ TABLE = [
     (r"query::get_limit$", r"^unwrap$", r"ParamValue::as_i64", "I",
      "first/skip literals are integer tokens of the grammar (query.pest) stored as ParamValue::Integer"),
     # ---- unreachable! outside the parsers -------------------------------------------------------------------
-    (r"(MutationQuery::(base64_field|get_mutate_query)|InsertEntity::fill_json|query::(get_sub_system_entity_query|get_fields|get_where_filters|get_search_filter))$", r"^unreachable!$", r".*", "T",
+    (r"MutationQuery::get_mutate_query$", r"^unreachable!$", r".*", "I",
+     "C14-R9 decides it: every (field type, value kind) pair the mutation parser can build has an explicit arm"),
+    (r"(MutationQuery::base64_field|InsertEntity::fill_json|query::(get_sub_system_entity_query|get_fields|get_where_filters|get_search_filter))$", r"^unreachable!$", r".*", "T",
      "arm excluded by the parsers' semantic checks: the field kind / value kind combination is fixed when the query or mutation is parsed against the data model"),
     (r"RoomAuthorisations::(validate_room_mutation|validate_authorisation_mutation)$", r"^unreachable!$", r".*", "T",
      "sub-entity field names of sys.Room / sys.Authorisation are fixed by SYSTEM_DATA_MODEL; the mutation parser rejects any other field"),
@@ -53,14 +55,14 @@ TABLE = [
     (r"(EntityMutation::aliased_name|QueryField::name)$", r"^unwrap$", r"alias", "I", "guarded by is_some() in the same expression (if self.alias.is_some())"),
     (r"DataModel::(insert|update_with)$", r"^unwrap$", r"HashMap::(get|get_mut|remove)\(&\*?‹DataModel›\.namespace", "I", "namespace_ids and namespaces are filled together (insert / parse_internal)"),
     (r"DataModel::get_entity$", r"^index$", r"^&‹Vec<str>›$", "I", "indices 0 and 1 under split.len() == 2"),
-    (r"Entity::insert_field$", r"^panic!$", r".*", "T", "duplicate field names are rejected by add_field / Entity::update before insert_field is called"),
+    (r"Entity::insert_field$", r"^panic!$", r".*", "I", "C14-R10 decides it: add_field tests contains_key first, update removes every existing name from the new definition first; no other caller"),
     (r"data_model_parser::validate_json_for_entity$", r"^unwrap$", r"as_object", "I", "is_object() tested just above"),
     (r"Parameters::from_json$", r"^unwrap$", r"Number::as_", "I", "each as_x follows the matching is_x test"),
     (r"(NodeToInsert::update_daily_logs|<database::node::NodeToInsert as .*Writeable>::write|write)$", r"^unwrap$", r"‹[^›]*›\.node", "I", "is_none() -> return on the previous line"),
     (r"graph_database::build_path$", r"^index$", r"^&\*‹String›$", "I", "file name is the base64 of a 32 byte hash computed locally"),
     (r"MutationQuery::(to_json|result)$", r"^index$", r"‹Vec<InsertEntity>›", "I", "lengths compared equal just above; index from 0..len"),
     (r"InsertEntity::fill_json$", r"^index$", r"‹\(String, Vec<InsertEntity>\)›\.1", "T", "sub_nodes vectors are filled by the mutation builder with one element per parsed sub-entity (non empty for Entity fields)"),
-    (r"query::get_paging$", r"^index$", r"(order_by|paging)", "T", "before/after values are checked against order_by length by the query parser (EntityQuery::finalize)"),
+    (r"query::get_paging$", r"^index$", r"(order_by|paging)", "I", "C14-R8 decides it: EntityQuery::finalize refuses more before/after values than order_by keys on every accepting path"),
     (r"EntityQuery::finalize$", r"^index$", r"order_by", "I", "index bounded by the loop over the same length"),
     (r"SingleQuery::add_param$", r"^index$", r"var_order", "I", "index from 0..var_order.len()"),
     (r"query::Query::read$", r"^index$", r"quer", "I", "index from 0..quer.len()"),
